@@ -65,8 +65,8 @@ def rule_F(run, prog):
         f = prog.func("quantarhei.core.parallel." + nme)
         prog.consulted.add(f.relpath)
         pm = parents_map(f.node)
-        top = [x for x in f.node.body if isinstance(x, ast.If) and "parallel_level" in norm(x.test)]
-        if len(top) != 1 or norm(top[0].test).replace(" ", "") != "config.parallel_level==1":
+        top = [x for x in f.node.body if isinstance(x, ast.If) and norm(x.test).replace(" ", "") == "config.parallel_level==1"]
+        if len(top) != 1:
             raise AnalysisError("%s: branch on config.parallel_level == 1 not found" % nme)
         for branch, blk in (("distributing", top[0].body), ("not distributing", top[0].orelse)):
             rets = [x for st in blk for x in ast.walk(st) if isinstance(x, ast.Return) and x.value is not None]
@@ -90,6 +90,23 @@ def rule_F(run, prog):
                         "the collecting functions then work with the block of an earlier call"))
                 run.obligation(rid, nme, ok, key="records-block:%s:%s" % (branch[:3], norm(r)[:40]), message=msg,
                                loc=f.loc(r), sample={"helper": nme, "branch": branch, "return": norm(r)[:60]})
+        # a block handed out before the helper reaches that branch (a short cut for a special input) is a block as well
+        inside = {id(x) for x in ast.walk(top[0])}
+        nested = {id(x) for d in ast.walk(f.node) if d is not f.node and isinstance(d, (ast.FunctionDef, ast.Lambda))
+                  for x in ast.walk(d)}
+        for r in ast.walk(f.node):
+            if not isinstance(r, ast.Return) or r.value is None or id(r) in inside or id(r) in nested:
+                continue
+            n += 1
+            holder = pm.get(r)
+            blk = next((b for b in (getattr(holder, "body", []), getattr(holder, "orelse", [])) if r in b), [])
+            ok = any(isinstance(s_, ast.Assign) and any(norm(t_) == "config.range" for t_ in s_.targets)
+                     for st in blk[:blk.index(r)] for s_ in ast.walk(st)) if blk else False
+            run.obligation(rid, nme, ok, key="records-block:short-cut:%s" % norm(r)[:40],
+                           message="%s hands out a block (%s) on a short cut taken before it looks at the parallel level and records "
+                                   "nothing in config.range there: the collecting functions called after such a loop work with the "
+                                   "block of an earlier loop (they copy and sum the rows of that loop once more)" % (nme, norm(r)[:50]),
+                           loc=f.loc(r), sample={"helper": nme, "branch": "short cut", "return": norm(r)[:60]})
     if n < 6:
         raise AnalysisError("C20-F: only %d block returns found" % n)
     # the sum goes back into the reduced array whatever its rank
